@@ -63,6 +63,7 @@ const (
 	PField                // field of a heap object: Obj + Key
 	PElem                 // element of a symbolic slice: Region + Index
 	PGlobal               // package-level variable
+	PArrRegion            // whole array that lives in its own fresh region (make([]T, const) in SSA form): Reg
 )
 
 type PtrV struct {
